@@ -125,7 +125,9 @@ def guarded(fn, limit):
     """-> (kind, detail, value); kind in ok | declared | undeclared | hang."""
     st = _state
     exc = st['exc']
+    import time
     old = signal.signal(signal.SIGALRM, _alarm)
+    t0 = time.time()
     signal.setitimer(signal.ITIMER_REAL, limit)
     try:
         try:
@@ -134,6 +136,9 @@ def guarded(fn, limit):
             return 'ok', None, v
         finally:
             signal.setitimer(signal.ITIMER_REAL, 0)
+            el = (time.time() - t0) / limit
+            if el < 0.98:
+                st['max_fraction_of_limit'] = max(st.get('max_fraction_of_limit', 0.0), el)
     except Hang as e:
         (site, line), lib = site_of(e.__traceback__, st['pkg_dir'])
         return 'hang', {'limit_s': limit, 'site': site, 'line': line, 'lib': lib, 'exc': 'hang', 'msg': ''}, None
